@@ -115,7 +115,9 @@ def containsAux (τ : Tol K) : Bool → Dom K → Env K → Env K → Option Boo
       if onB then
         let x0 := isclose τ.bary b.1 0 && (le 0 b.2 && le b.2 1)
         let y0 := isclose τ.bary b.2 0 && (le 0 b.1 && le b.1 1)
-        some ((x0 || y0) || isclose τ.bary (b.1 + b.2) 1)
+        -- third edge: sum close to 1, restricted to the segment between corner_1 and corner_2
+        let e3 := isclose τ.bary (b.1 + b.2) 1 && (le (-τ.batol) b.1 && le (-τ.batol) b.2)
+        some ((x0 || y0) || e3)
       else
         some ((le 0 b.1 && le 0 b.2) && le (b.2 + b.1) 1)
     | _, _, _, _ => none
@@ -173,11 +175,12 @@ def containsAux (τ : Tol K) : Bool → Dom K → Env K → Env K → Option Boo
     let ob ← containsAux τ true b pts ρ
     pure ((oa && ib) || (ia && ob))
   | onB, .translate v d t, pts, ρ =>
-    -- the inner domain sees only the shifted coordinates of `v` and the parameters
+    -- the inner domain sees the shifted coordinates of `v`; the point's other coordinates (a product
+    -- partner's) are handed down in front of the parameters (`points.join(params)` minus the moved variable)
     match pts.get v, t.f (pts ++ ρ) with
-    | some [x], [tx] => containsAux τ onB d [(v, [x - tx])] ρ
-    | some [x, y], [tx, ty] => containsAux τ onB d [(v, [x - tx, y - ty])] ρ
-    | some [x, y, z], [tx, ty, tz] => containsAux τ onB d [(v, [x - tx, y - ty, z - tz])] ρ
+    | some [x], [tx] => containsAux τ onB d [(v, [x - tx])] (pts.filter (fun b => b.1 != v) ++ ρ)
+    | some [x, y], [tx, ty] => containsAux τ onB d [(v, [x - tx, y - ty])] (pts.filter (fun b => b.1 != v) ++ ρ)
+    | some [x, y, z], [tx, ty, tz] => containsAux τ onB d [(v, [x - tx, y - ty, z - tz])] (pts.filter (fun b => b.1 != v) ++ ρ)
     | _, _ => none
   | onB, .rotate v d m c, pts, ρ =>
     match pts.get v, m.f (pts ++ ρ), c.f (pts ++ ρ) with
@@ -188,7 +191,7 @@ def containsAux (τ : Tol K) : Bool → Dom K → Env K → Env K → Option Boo
       let qy := y - cy
       let sx := (m11 * qx - m01 * qy) / det
       let sy := (m00 * qy - m10 * qx) / det
-      containsAux τ onB d [(v, [sx + cx, sy + cy])] ρ
+      containsAux τ onB d [(v, [sx + cx, sy + cy])] (pts.filter (fun b => b.1 != v) ++ ρ)
     | _, _, _ => none
   | false, .bdry d, pts, ρ => containsAux τ true d pts ρ
   | true, .bdry _, _, _ => none                      -- a boundary has no boundary
@@ -245,7 +248,8 @@ def slacks (τ : Tol K) : Bool → Dom K → Env K → Env K → Option (List K)
     match pts.get v, o.f (pts ++ ρ), c1.f (pts ++ ρ), c2.f (pts ++ ρ) with
     | some [x, y], [ox, oy], [ax, ay], [bx, cy] =>
       let b := solveLgs (x - ox) (y - oy) (ax - ox) (ay - oy) (bx - ox) (cy - oy)
-      some (if onB then [b.1, 1 - b.1, b.2, 1 - b.2, closeSlack τ.bary b.1 0 1, closeSlack τ.bary b.2 0 1, closeSlack τ.bary (b.1 + b.2) 1 1]
+      some (if onB then [b.1, 1 - b.1, b.2, 1 - b.2, closeSlack τ.bary b.1 0 1, closeSlack τ.bary b.2 0 1, closeSlack τ.bary (b.1 + b.2) 1 1,
+                         b.1 + τ.batol, b.2 + τ.batol]
             else [b.1, b.2, 1 - (b.1 + b.2)])
     | _, _, _, _ => none
   | onB, .circle v c r, pts, ρ =>
@@ -274,9 +278,9 @@ def slacks (τ : Tol K) : Bool → Dom K → Env K → Env K → Option (List K)
     else pure (ia ++ ib)
   | onB, .translate v d t, pts, ρ =>
     match pts.get v, t.f (pts ++ ρ) with
-    | some [x], [tx] => slacks τ onB d [(v, [x - tx])] ρ
-    | some [x, y], [tx, ty] => slacks τ onB d [(v, [x - tx, y - ty])] ρ
-    | some [x, y, z], [tx, ty, tz] => slacks τ onB d [(v, [x - tx, y - ty, z - tz])] ρ
+    | some [x], [tx] => slacks τ onB d [(v, [x - tx])] (pts.filter (fun b => b.1 != v) ++ ρ)
+    | some [x, y], [tx, ty] => slacks τ onB d [(v, [x - tx, y - ty])] (pts.filter (fun b => b.1 != v) ++ ρ)
+    | some [x, y, z], [tx, ty, tz] => slacks τ onB d [(v, [x - tx, y - ty, z - tz])] (pts.filter (fun b => b.1 != v) ++ ρ)
     | _, _ => none
   | onB, .rotate v d m c, pts, ρ =>
     match pts.get v, m.f (pts ++ ρ), c.f (pts ++ ρ) with
@@ -284,7 +288,7 @@ def slacks (τ : Tol K) : Bool → Dom K → Env K → Env K → Option (List K)
       let det := m00 * m11 - m01 * m10
       let qx := x - cx
       let qy := y - cy
-      slacks τ onB d [(v, [(m11 * qx - m01 * qy) / det + cx, (m00 * qy - m10 * qx) / det + cy])] ρ
+      slacks τ onB d [(v, [(m11 * qx - m01 * qy) / det + cx, (m00 * qy - m10 * qx) / det + cy])] (pts.filter (fun b => b.1 != v) ++ ρ)
     | _, _, _ => none
   | false, .bdry d, pts, ρ => slacks τ true d pts ρ
   | true, .bdry _, _, _ => none
